@@ -124,8 +124,12 @@ def one(case, pl):
             btup = own0[0][0]
         ix = (lambda i: np.int64(i)) if be.get("npidx") else (lambda i: i)
         out = {"is_absorbing": guarded(lambda: bool(bmdp.is_absorbing(btup))), "actions": []}
+        offered = case["pomdp"]["actions"]
         for ai, a in enumerate(al):
-            r = {}
+            # an action is only taken at a belief whose support offers it everywhere
+            if any(fl(bq[i]) > 0 and aid[a] not in offered[i] for i in range(len(offered))):
+                continue
+            r = {"ai": ai}
             r["est_dict"] = [guarded(lambda o=o: dict_out(pomdp.state_estimator(bdict, a, o), sidx)) for o in ol + [never]]
             r["est_vec"] = [guarded(lambda oi=oi: [fj(x) for x in pomdp.state_estimator_vec(bvec, ix(ai), ix(oi))]) for oi in range(len(ol))]
 
